@@ -59,6 +59,7 @@ func (a *Analysis) lazyHelperOf(H *ssa.Function) *lazyHelper {
 	lh := &lazyHelper{H: H, OnceIdx: -1, MapIdx: -1, ListIdx: -1}
 	a.lazy[H] = lh
 	if len(H.Blocks) == 0 || H.Parent() != nil {
+		a.lazy[H] = nil
 		return nil
 	}
 	for i, p := range H.Params {
